@@ -158,7 +158,24 @@ def interp_finite(mg, method):
         if not (numpy.all(numpy.isfinite(w)) and numpy.all(numpy.isfinite(g)) and numpy.all(numpy.isfinite(dg))):
             return core.refuted("finite", "interpolator %r (order %d) gives non-finite values on the expanded volume grid" % (method, order),
                                 witness_id="interp-nonfinite:" + method, replay={"reproduced": True, "nan_count": int(numpy.isnan(w).sum())})
-    return core.proved("finite", "%s: finite frequency, gamma, V dgamma/dV on the grid expanded by 1.2 for orders %s" % (method, C11.admissible(method, len(V))))
+    # node-based methods also accept orders at or above the number of sampled volumes (every volume is then a node)
+    if method in ("lagrange", "krogh", "pchip"):
+        V5 = numpy.linspace(900, 600, 5)
+        W5 = 300.0 * (V5 / 700.0) ** -1.3
+        g5 = numpy.linspace(900 * 1.2, 600 / 1.2, 15)
+        for order in (5, 6, 7, 8):
+            try:
+                with warnings.catch_warnings(), numpy.errstate(all="ignore"):
+                    warnings.simplefilter("ignore")
+                    w, g, dg = C11.call_method(mg, method, V5, W5, g5, order)
+            except Exception as e:
+                return core.refuted("finite", "interpolator %r with order %d on 5 volumes cannot be used: %r" % (method, order, e), witness_id="interp-raise-high-order:" + method,
+                                    replay={"reproduced": True})
+            if not (numpy.all(numpy.isfinite(w)) and numpy.all(numpy.isfinite(g)) and numpy.all(numpy.isfinite(dg))):
+                return core.refuted("finite", "interpolator %r with order %d on 5 volumes gives non-finite values" % (method, order), witness_id="interp-nonfinite-high-order:" + method,
+                                    replay={"reproduced": True})
+    return core.proved("finite", "%s: finite frequency, gamma, V dgamma/dV on the grid expanded by 1.2 for orders %s (and orders 5-8 on 5 volumes for node-based methods)"
+                       % (method, C11.admissible(method, len(V))))
 
 
 def check_calculator(calc):
